@@ -84,19 +84,18 @@ Qed.
 (* ------------------------------------------------------------------ a dataset nobody is linked to cannot be reached *)
 Lemma no_reach : forall s d e,
   wf s -> In d (s_data s) -> d_member d = true -> In e (s_data s) -> d_id e <> d_id d ->
-  (forall x, In x (s_ext s) -> entry_touches_any (d_own d) x = false) ->
+  (forall x, In x (s_ext s) -> entry_touches_any (comps d) x = false) ->
   forall c n, Derivable (d_own e) (all_links s) c n -> fst c <> d_id d.
 Proof.
   intros s d e (Hnd & Hds & Hext & _) Hd Hmd He Hne Hno c n H.
   induction H as [c n Hc | l n Hl Hf IH].
-  - destruct (Hds e He) as (Hown & _). rewrite (Hown c Hc). exact Hne.
+  - destruct (Hds e He) as (Hown & _). rewrite (Hown c); [exact Hne|]. unfold comps. apply in_app_iff. auto.
   - apply in_all_links in Hl. destruct Hl as [[x [Hx [Hmx Hlx]]]|[x [Hx Hlx]]].
-    + destruct (Hds x Hx) as (Hown & Hco & Hint & _).
-      destruct (Hint l Hlx) as (Hnn & Hfr & Hto).
+    + destruct (ds_link_shape x l (Hds x Hx) Hlx) as (Hnn & _ & Hfst).
       destruct (l_from l) as [|f0 r] eqn:Efr; [congruence|].
       assert (Hf0 : fst f0 <> d_id d) by (apply IH; simpl; auto).
-      assert (fst f0 = d_id x) by (apply Hown, Hco, Hfr; simpl; auto).
-      assert (fst (l_to l) = d_id x) by (apply Hown, Hco, Hto).
+      assert (fst f0 = d_id x) by (apply Hfst; unfold link_cids; rewrite Efr; simpl; auto).
+      assert (fst (l_to l) = d_id x) by (apply Hfst; unfold link_cids; simpl; auto).
       congruence.
     + apply in_entry_links in Hlx. destruct Hlx as [p [Hp Hl]].
       intros Heq.
@@ -105,15 +104,15 @@ Proof.
       destruct (Hext x Hx p (l_to l) Hp Hc) as [y [Hy [Hmy Hcy]]].
       destruct (Hds y Hy) as (Hown & _).
       assert (y = d). { apply (nodup_id_eq (s_data s)); auto. rewrite <- (Hown _ Hcy). exact Heq. }
-      subst y. pose proof (entry_touches_any_intro (d_own d) x p (l_to l) Hp Hc Hcy) as Ht.
+      subst y. pose proof (entry_touches_any_intro (comps d) x p (l_to l) Hp Hc Hcy) as Ht.
       rewrite (Hno x Hx) in Ht. discriminate.
 Qed.
 
 (* the links of a state with dataset d marked as outside the collection: d's internal links skipped *)
 Lemma skip_remove_member : forall own Lf d' ds d,
   find_ds (d_id d') ds = Some d -> d_member d' = false ->
-  (forall l, In l (d_int d) -> dead own Lf l) ->
-  Skip own Lf (flat_map d_int (filter d_member ds)) (flat_map d_int (filter d_member (put_ds d' ds))).
+  (forall l, In l (ds_links d) -> dead own Lf l) ->
+  Skip own Lf (flat_map ds_links (filter d_member ds)) (flat_map ds_links (filter d_member (put_ds d' ds))).
 Proof.
   intros own Lf d' ds. induction ds as [|a r IH]; simpl; intros d Hf Hm' Hdead.
   - constructor.
@@ -129,7 +128,7 @@ Qed.
 Lemma fresh_remove_data : forall s d d',
   wf s -> find_ds (d_id d') (s_data s) = Some d -> d_member d = true ->
   d_member d' = false ->
-  (forall x, In x (s_ext s) -> entry_touches_any (d_own d) x = false) ->
+  (forall x, In x (s_ext s) -> entry_touches_any (comps d) x = false) ->
   fresh s -> fresh (set_data s (put_ds d' (s_data s))).
 Proof.
   intros s d d' Hwf Hf Hm Hm' Hno Hfr x Hx Hmx.
@@ -140,13 +139,12 @@ Proof.
   apply discover_skip with (L := all_links s); [|apply (Hfr x Hx Hmx)].
   unfold all_links. simpl. apply Skip_app; [|apply Skip_refl].
   apply (skip_remove_member _ _ d' _ d Hf Hm').
-  intros l Hl. destruct (Hds d Hd) as (Hown & Hco & Hint & _).
-  destruct (Hint l Hl) as (Hnn & Hfrm & Hto).
+  intros l Hl. destruct (ds_link_shape d l (Hds d Hd) Hl) as (Hnn & _ & Hfst).
   destruct (l_from l) as [|f0 r] eqn:Efr; [congruence|].
   exists f0. split. { rewrite Efr. simpl. auto. }
   intros n Hder.
   assert (Hwf : wf s) by (unfold wf; auto).
   apply (no_reach s d x Hwf Hd Hm Hx) in Hder; auto.
-  - apply Hder. apply Hown, Hco, Hfrm. simpl. auto.
+  - apply Hder. apply Hfst. unfold link_cids. rewrite Efr. simpl. auto.
   - rewrite Hid. exact Hne.
 Qed.
